@@ -54,6 +54,9 @@ def configure(chdir=True):
     global _configured
     ensure_path()
     if _configured:
+        if _scratch is None:
+            # a pool process running another shard after cleanup_scratch(): re-establish cwd and fast path
+            _workdir(chdir)
         return
     import warnings
 
@@ -87,6 +90,13 @@ def configure(chdir=True):
     # silence logging
     runLog.setVerbosity("error")
     logging.disable(10**6)
+    _workdir(chdir)
+    _configured = True
+
+
+def _workdir(chdir=True):
+    from armi import context
+
     d = scratch_dir()
     if chdir:
         os.chdir(d)
@@ -94,7 +104,6 @@ def configure(chdir=True):
     os.makedirs(fp, exist_ok=True)
     context._FAST_PATH = fp
     context._FAST_PATH_IS_TEMPORARY = False
-    _configured = True
 
 
 def quiet_settings(extra=None):
